@@ -16,6 +16,7 @@
  */
 #include "corpus.h"
 #include <idn2.h>
+#include <errno.h>
 #include <dlfcn.h>
 #include <limits.h>
 #include <link.h>
@@ -159,7 +160,7 @@ static const char *fresh_outcome(int li, int mode, int tld, int mi, int ai, int 
     void *o = l->new_(0x00); l->init(o); l->set_rfc(o, mode); l->set_tld(o, tld); l->set_mask(o, MASKV[mi]);
     if (l->setup(o) != 0) { fprintf(stderr, "fresh setup failed\n"); exit(2); }
     if (fslot) l->inject(IDNCODES[fop.b], fop.c);
-    int ret = l->is_email(o, POOL[ai], plen(ai));
+    errno = 0; int ret = l->is_email(o, POOL[ai], plen(ai));
     l->disarm();
     char buf[512]; l->outcome(o, ret, buf, sizeof buf);
     l->free_(o); l->delete_(o); l->ledger_reset(); l->ctx_reset();
@@ -246,6 +247,7 @@ static void apply(run_t *r, op_t o, const hist_t *h, int check) {
             if (o.t == OP_EMAILF) l->inject(IDNCODES[o.b], o.c);
             const char *a = POOL[o.a];
             char set0[128], set1[128]; if (check) settings_of(l, obj, set0, sizeof set0);
+            errno = (h->n % 2) ? ERANGE : 0;     /* the caller's errno alternates with the history length: it must not matter */
             int ret = l->is_email(obj, a, plen(o.a)); MC_ADD(C_LIBCALLS, 1);
             if (check) { settings_of(l, obj, set1, sizeof set1); if (strcmp(set0, set1)) violation_h("email", "email:validation-changed-the-caller's-settings", h, "[%s] before eav_is_email: %s ; after: %s", l->name, set0, set1); }
             int consumed = !l->inject_pending();
@@ -613,6 +615,32 @@ static void fault_corpus_sink(const unsigned char *s, size_t n, void *arg) {
     }
     MC_ADD(C_NONTRIV, 1);
 }
+/* every code x buffer x tld_check on host names of every length class (1..262 characters in 63-character labels, with and without root dot): what the
+ * library does with one particular code may depend on the shape of the name it was converting */
+static void fault_lengths(long shard, void *arg) {
+    (void)arg; int c = (int)shard; lib_t *l = &LIB[0];
+    static const int LEN[] = { 1, 2, 3, 4, 5, 8, 16, 32, 62, 63, 64, 65, 100, 126, 127, 128, 129, 190, 191, 192, 193, 200, 240, 245, 250, 251, 252, 253, 254, 255, 256, 257, 258, 260, 262 };
+    for (unsigned li = 0; li < sizeof LEN / sizeof LEN[0]; li++) for (int root = 0; root < 2; root++) for (int b = 0; b < 2; b++) for (int t = 0; t < 2; t++) {
+        char a[400]; size_t n = 0; a[n++] = 'x'; a[n++] = '@';
+        int L = LEN[li] - root; if (L < 1) continue;
+        for (int i = 0; i < L; i++) a[n++] = (i % 64 == 63 && i != L - 1) ? '.' : (char)('a' + i % 26);
+        if (root) a[n++] = '.';
+        a[n] = 0;
+        char cfg[80]; snprintf(cfg, sizeof cfg, "faultlen code=%d buf=%d tld=%d", c, b, t);
+        mc_current("faultlen", cfg, a, n);
+        l->ledger_reset(); l->ctx_reset();
+        void *o = l->new_(0xA5); l->init(o); l->set_rfc(o, 3); l->set_tld(o, t); if (l->setup(o)) exit(2);
+        l->inject(IDNCODES[c], b); errno = 0;
+        int r = l->is_email(o, a, n); int consumed = !l->inject_pending(); l->disarm();
+        MC_ADD(C_EVAL, 1); MC_ADD(C_LIBCALLS, 1); MC_ADD(C_FCORPUS, 1);
+        char got[512]; l->outcome(o, r, got, sizeof got); const char *ms = l->errstr(o);
+        if (consumed && (strncmp(got, "ret=0 errcode=2 ", 16) || !strstr(got, "v4=0 v6=0 dom=0") || !ms || strcmp(ms, idn2_strerror(IDNCODES[c]))))
+            mc_violation("faultlen", "faultlen:failure-not-contained", "", cfg, a, n, "injected idn code %d on a %d-character name%s: %s (message \"%s\")", IDNCODES[c], LEN[li], root ? " with root dot" : "", got, ms ? ms : "(null)");
+        l->free_(o);
+        if (l->ledger_live() != 0 || l->ledger_double_free()) mc_violation("faultlen", "faultlen:leak-or-double-free", "", cfg, a, n, "injected idn code %d: %d block(s) live after eav_free, double frees %d", IDNCODES[c], l->ledger_live(), l->ledger_double_free());
+        l->delete_(o);
+    }
+}
 static void fault_corpus_shard(long shard, void *arg) { (void)arg; corpus_run(CURPH, shard, fault_corpus_sink, NULL); }
 
 /* ---------------------------------------------------------------- C13: every ordered pair of a set of addresses on one object
@@ -625,7 +653,7 @@ static void pairs_build(void) {
     lib_t *l = &LIB[0];
     for (int c = 0; c < 3; c++) for (int i = 0; i < NPAIR; i++) {
         l->ledger_reset(); l->ctx_reset(); void *o = l->new_(0); l->init(o); l->set_rfc(o, PCFG[c][0]); l->set_tld(o, PCFG[c][1]); if (l->setup(o)) exit(2);
-        int r = l->is_email(o, PAIRADDR[i], strlen(PAIRADDR[i])); char buf[512]; l->outcome(o, r, buf, sizeof buf); PAIRWANT[c][i] = strdup(buf);
+        errno = 0; int r = l->is_email(o, PAIRADDR[i], strlen(PAIRADDR[i])); char buf[512]; l->outcome(o, r, buf, sizeof buf); PAIRWANT[c][i] = strdup(buf);
         l->free_(o); l->delete_(o);
     }
 }
@@ -669,6 +697,7 @@ static void xpairs_build(void) {
     static const char *const OTHER[] = { "x@[1.2.3.4]", "x@[IPv6:::1]", "x@[IPv6:1:2:3:4:5:6:7:8]", "x@[1.2.3.256]", "x@[IPv6:1::2::3]", "x@[1.2.3.4", "x@-a.com", "x@a..com", "x@a.c_m", "x@a.com..",
         "x@\xd0\xb6\xe3\x80\x82" "com", "x@\xc2\xad.com", "x@a\xff.com", "x@xn--a.com", "x@\xef\xbd\x83\xef\xbd\x8f\xef\xbd\x8d.\xef\xbd\x83\xef\xbd\x8f\xef\xbd\x8d", "x@\xe2\x99\xa5.de",
         "\"a b\"@a.com", "a..b@a.com", "\"a\"b@a.com", "\xd0\xb6@a.com", "a\x01@a.com", "\"\"@a.com", " @a.com", "\"a\\ b\"@a.com", "a#b@a.com", "a.b@a.COM", "\"q@r\"@a.Org.",
+        "x@[99999999999999999999.0.2.1]", "x@[1.2.3.99999999999999999999]", "x@[IPv6:::99999999999999999999.1.1.1]",
         "x@example.info", "x@example.co", "x@mail.example.museum", "x@example.nosuchtld", "x@test.com", "x@examples.org",
         "", "@", "x@", "@a.com", "x", "x@@a.com", "abcdefghijklmnopqrstuvwxyzabcdefghijklmnopqrstuvwxyzabcdefghijklm@a.com",
         "x@abcdefghijklmnopqrstuvwxyzabcdefghijklmnopqrstuvwxyzabcdefghijklm.com" };
@@ -680,7 +709,7 @@ static void xpairs_build(void) {
     for (int m = 0; m < 4; m++) for (int t2 = 0; t2 < 2; t2++) for (int i = 0; i < NXP; i++) {
         l->ledger_reset(); l->ctx_reset(); lib_restore_statics(0);
         void *o = l->new_(0); l->init(o); l->set_rfc(o, m); l->set_tld(o, t2); if (l->setup(o)) exit(2);
-        int r = l->is_email(o, XP[i], strlen(XP[i])); char buf[512]; l->outcome(o, r, buf, sizeof buf); XPWANT[m][t2][i] = strdup(buf);
+        errno = 0; int r = l->is_email(o, XP[i], strlen(XP[i])); char buf[512]; l->outcome(o, r, buf, sizeof buf); XPWANT[m][t2][i] = strdup(buf);
         l->free_(o); l->delete_(o);
     }
 }
@@ -695,8 +724,10 @@ static void xpair_one_lib(int li, int i, int j, int c1, int c2, int same_object)
     if (!same_object) { o2 = l->new_(0x5A); l->init(o2); l->set_rfc(o2, m2); l->set_tld(o2, t2); if (l->setup(o2)) exit(2); }
     char cfg[96]; snprintf(cfg, sizeof cfg, "xpair first=%d m1=%d t1=%d m2=%d t2=%d same=%d", i, m1, t1, m2, t2, same_object);
     mc_current("xpairs", cfg, XP[j], strlen(XP[j]));
-    l->is_email(o1, XP[i], strlen(XP[i]));
+    errno = 0; l->is_email(o1, XP[i], strlen(XP[i]));
     if (same_object && c1 != c2) { l->set_rfc(o2, m2); l->set_tld(o2, t2); if (l->setup(o2)) exit(2); }
+    /* errno belongs to the caller's thread: whatever an earlier libc call left there (here: ERANGE / EILSEQ / EINVAL in turn) must not reach the verdict */
+    errno = (i + j) % 3 == 0 ? ERANGE : (i + j) % 3 == 1 ? EILSEQ : EINVAL;
     int r = l->is_email(o2, XP[j], strlen(XP[j])); char got[512]; l->outcome(o2, r, got, sizeof got);
     MC_ADD(C_EVAL, 1); MC_ADD(C_LIBCALLS, 2); MC_ADD(C_XPAIRS, 1);
     if (strcmp(got, XPWANT[m2][t2][j]))
@@ -724,7 +755,7 @@ static void polpairs_build(void) {
     for (int m = 0; m < 4; m++) for (int k = 0; k < NPMASK; k++) for (int j = 0; j < NPOL; j++) {
         l->ledger_reset(); l->ctx_reset(); lib_restore_statics(0);
         void *o = l->new_(0); l->init(o); l->set_rfc(o, m); l->set_tld(o, 1); l->set_mask(o, PMASKV[k]); if (l->setup(o)) exit(2);
-        int r = l->is_email(o, POLADDR[j], strlen(POLADDR[j])); char buf[512]; l->outcome(o, r, buf, sizeof buf); POLWANT[m][k][j] = strdup(buf);
+        errno = 0; int r = l->is_email(o, POLADDR[j], strlen(POLADDR[j])); char buf[512]; l->outcome(o, r, buf, sizeof buf); POLWANT[m][k][j] = strdup(buf);
         l->free_(o); l->delete_(o);
     }
 }
@@ -737,7 +768,8 @@ static void polpair_one_lib(int li, int i, int j, int m, int k) {
     char cfg[96]; snprintf(cfg, sizeof cfg, "polpair first=%d m=%d k=%d", i, m, k);
     mc_current("polpairs", cfg, POLADDR[j], strlen(POLADDR[j]));
     char s0[128], s1[128]; settings_of(l, o, s0, sizeof s0);
-    l->is_email(o, XP[i], strlen(XP[i]));
+    errno = 0; l->is_email(o, XP[i], strlen(XP[i]));
+    errno = (i + j) % 3 == 0 ? ERANGE : (i + j) % 3 == 1 ? EILSEQ : EINVAL;      /* the caller's errno must not reach the verdict */
     int r = l->is_email(o, POLADDR[j], strlen(POLADDR[j])); char got[512]; l->outcome(o, r, got, sizeof got);
     settings_of(l, o, s1, sizeof s1);
     MC_ADD(C_EVAL, 1); MC_ADD(C_LIBCALLS, 2); MC_ADD(C_POLPAIRS, 1);
@@ -751,6 +783,8 @@ static void polpairs_shard(long shard, void *arg) { (void)arg; int i = (int)shar
 
 static int do_replay(void) {
     mc_replay_t rp; if (mc_load_replay(mc_replay, &rp)) return 2;
+    if (!strcmp(rp.sub, "faultlen")) { mc_replay_hit = 0; int code = (int)mc_cfg_int(rp.cfg, "code", 0); fault_lengths(code, NULL);
+        printf("replay %s: %s\n", mc_replay, mc_replay_hit ? "VIOLATION reproduced" : "no violation"); return mc_replay_hit ? 1 : 0; }
     if (!strcmp(rp.sub, "faultcorpus")) { mc_replay_hit = 0; fault_corpus_sink(rp.in, (size_t)rp.len, NULL);
         printf("replay %s: %s\n", mc_replay, mc_replay_hit ? "VIOLATION reproduced" : "no violation"); return mc_replay_hit ? 1 : 0; }
     if (!strcmp(rp.sub, "polpairs")) {
@@ -817,7 +851,7 @@ int main(int argc, char **argv) {
     C_CORPUS = mc_counter("corpus_addresses_through_all_backends");
     if (!strcmp(PROP, "C18corpus")) {
         mc_driver = "C18"; CORPUS_DEEP = mc_thorough; if (corpus_load()) return 2; corpus_objects();
-        static const int PH[] = { CP_TLD, CP_IDN, CP_LONGIDN, CP_ALTDOT, CP_LABELLEN, CP_MAXLIT, CP_LPXDOM, CP_WHOLEDOM, CP_DEPTH, CP_EMAIL, CP_DOMAIN, CP_LITERAL, CP_LOCAL, CP_BYTES, CP_CROSS, CP_LONG, CP_SCALARS };
+        static const int PH[] = { CP_TLD, CP_IDN, CP_LONGIDN, CP_ALTDOT, CP_LABELLEN, CP_MAXLIT, CP_LPXDOM, CP_WHOLEDOM, CP_DEPTH, CP_EMBED, CP_EMAIL, CP_DOMAIN, CP_LITERAL, CP_LOCAL, CP_BYTES, CP_CROSS, CP_LONG, CP_SCALARS };
         policy_build(); mc_parallel("3 backends: all 2^11 allow_tld masks x one address per class x 4 modes", 64, policy_shard, NULL);
         for (unsigned i = 0; i < sizeof PH / sizeof PH[0]; i++) { CURPH = PH[i]; char nm[64]; snprintf(nm, sizeof nm, "3 backends: %.40s", corpus_name(CURPH)); mc_parallel(nm, corpus_shards(CURPH), corpus_shard, NULL); }
         return mc_finish();
@@ -830,6 +864,7 @@ int main(int argc, char **argv) {
         polpairs_build(); snprintf(nmx, sizeof nmx, "polpairs: %d class / form representatives x 14 masks x 4 modes, each right after every one of %d feature addresses on the same object", NPOL, NXP);
         mc_parallel(nmx, NXP, polpairs_shard, NULL); }
     if (FAULTS) mc_parallel("direct is_utf8_domain with one shared idn-code variable: every code x buffer x tld_check x 6 follow-up names", 1, direct_runs, NULL);
+    if (FAULTS) mc_parallel("fault lengths: every code x buffer x tld_check on names of 35 lengths (1..262 characters) with and without root dot", NCODES, fault_lengths, NULL);
     if (FAULTS) { CORPUS_DEEP = mc_thorough; if (corpus_load()) return 2;
         static const int PHF[] = { CP_IDN, CP_WHOLEDOM, CP_ALTDOT, CP_LONGIDN, CP_LPXDOM, CP_DEPTH, CP_BYTES };
         for (unsigned i = 0; i < sizeof PHF / sizeof PHF[0]; i++) { CURPH = PHF[i]; char nmf[96]; snprintf(nmf, sizeof nmf, "fault corpus (3 environment answers x tld on/off): %.40s", corpus_name(CURPH)); mc_parallel(nmf, corpus_shards(CURPH), fault_corpus_shard, NULL); } }
